@@ -33,7 +33,10 @@ package scen
 //     from the key (every hop then gains the least the assumption permits:
 //     one bit), the K nearest, or a per-bucket mix of those;
 //   * the seed routing table: a small random subset, one random peer, or only
-//     the peer farthest from the key.
+//     the peer farthest from the key;
+//   * patchy address knowledge (c02_bare.go): in half of the runs some peers
+//     are named without addresses and some seeds have no stored address,
+//     while the host still reaches every peer by identity.
 //
 // Regressions this exposes: anything that makes the lookup give up, forget or
 // stop listening as a function of how much it has already done rather than of
@@ -82,8 +85,8 @@ func init() {
 	sim.Register(&sim.Scenario{Prop: "C02", Name: "converge-deep-path", Weight: 2, Run: runC02Deep,
 		Real: []string{"IpfsDHT.GetClosestPeers", "query.go state machine incl. follow-up phase", "qpeerset", "lookup events", "kbucket routing table (refresh stamps)", "ProtocolMessenger"},
 		Stub: []string{"host.Host/network (simhost)", "pb.MessageSender (level A)", "remote peers (scripted: k-bucket complete, lazily computed; uniform or thin network of up to thousands of peers)"},
-		Faults: []string{"time_advance", "probe_term_completed", "probe_followup_ran", "probe_stamp_checked",
-			"probe_deep_judged", "probe_deep_long_path", "probe_deep_very_long_path", "probe_deep_wide_state", "probe_deep_wide_per_k"},
+		Faults: append([]string{"time_advance", "probe_term_completed", "probe_followup_ran", "probe_stamp_checked",
+			"probe_deep_judged", "probe_deep_long_path", "probe_deep_very_long_path", "probe_deep_wide_state", "probe_deep_wide_per_k"}, c02BareFaults...),
 	})
 }
 
@@ -292,6 +295,10 @@ func runC02Deep(s *sim.Sim) {
 	seedMode := s.Draw("seed-mode", 3)
 	useed := uint64(s.Draw("universe", 1<<16))
 	rng := newSubRng(s, "world")
+	// patchy address knowledge (c02_bare.go): peers named without addresses,
+	// seeds without a stored address; the host reaches peers by identity
+	bare := drawBareWorld(s)
+	bare.install(&c)
 
 	u := simnet.NewUniverse(useed, 0)
 	w := &deepWorld{u: u, key: keyKad, K: c.K, policy: policy, seed: rng.next(), knows: map[peer.ID][]*simnet.Peer{}}
@@ -340,11 +347,21 @@ func runC02Deep(s *sim.Sim) {
 	default: // one random peer
 		seeds = []*simnet.Peer{real[rng.Intn(len(real))]}
 	}
-	o.table = h.Seed(w.addrs(seeds))
-	o.seeded = map[peer.ID]bool{}
-	for _, p := range seeds {
-		o.seeded[p.ID] = true
+	isSeed := map[peer.ID]bool{}
+	o.seeded = map[peer.ID]bool{} // seeds whose address the peerstore holds
+	var seedRecs []*simnet.Peer
+	for _, p := range w.addrs(seeds) {
+		isSeed[p.ID] = true
+		cp := *p
+		if c.SeedAddrs != nil {
+			cp.Addrs = c.SeedAddrs(p)
+		}
+		if len(cp.Addrs) > 0 {
+			o.seeded[p.ID] = true
+		}
+		seedRecs = append(seedRecs, &cp)
 	}
+	o.table = h.Seed(seedRecs)
 	o.stampsPre = h.DHT.RoutingTable().GetTrackedCplsForRefresh()
 	s.MaxSteps = 3000
 
@@ -370,7 +387,7 @@ func runC02Deep(s *sim.Sim) {
 	// was first named to the node under test (or was in its seed table: 0)
 	nearest := w.extreme(real, 1, false)[0]
 	answered, hopsToNearest := 0, -1
-	if o.seeded[nearest.ID] {
+	if isSeed[nearest.ID] {
 		hopsToNearest = 0
 	}
 
@@ -420,9 +437,19 @@ func runC02Deep(s *sim.Sim) {
 							hopsToNearest = answered
 						}
 					}
-					resp := &pb.Message{Type: r.Req.GetType(), Key: r.Req.GetKey(), CloserPeers: simnet.ToPB(near)}
+					recs := simnet.ToPB(near)
+					good := map[peer.ID]bool{} // named with an address
+					for _, rec := range recs {
+						if c.Present != nil {
+							c.Present(x, rec)
+						}
+						if len(rec.Addrs) > 0 {
+							good[peer.ID(rec.Id)] = true
+						}
+					}
+					resp := &pb.Message{Type: r.Req.GetType(), Key: r.Req.GetKey(), CloserPeers: recs}
 					s.Release(p, simnet.Reply{Msg: resp})
-					o.deliveries = append(o.deliveries, delivery{Step: s.Steps, Peer: r.To, Kind: "reply", Peers: ids, RPC: r})
+					o.deliveries = append(o.deliveries, delivery{Step: s.Steps, Peer: r.To, Kind: "reply", Peers: ids, Good: good, RPC: r})
 				}})
 			}
 		}
@@ -444,8 +471,8 @@ func runC02Deep(s *sim.Sim) {
 	if thin {
 		shape = "thin"
 	}
-	s.Summary["cfg"] = fmt.Sprintf("deep shape=%s pool=%d N=%d K=%d alpha=%d beta=%d policy=%d seedMode=%d table=%d answered=%d hopsToNearest=%d",
-		shape, pool, c.N, c.K, c.Alpha, c.Beta, policy, seedMode, len(o.table), answered, hopsToNearest)
+	s.Summary["cfg"] = fmt.Sprintf("deep shape=%s pool=%d N=%d K=%d alpha=%d beta=%d policy=%d seedMode=%d table=%d answered=%d hopsToNearest=%d bare=%s",
+		shape, pool, c.N, c.K, c.Alpha, c.Beta, policy, seedMode, len(o.table), answered, hopsToNearest, bare)
 
 	switch {
 	case s.Failed():
